@@ -9,7 +9,7 @@ cd /verif
 mkdir -p .cache
 WT=""
 while [ -z "$WT" ]; do
-  for s in mutwt mutwt2 mutwt3 mutwt4 mutwt5; do
+  for s in mutwt mutwt2 mutwt3; do
     exec 9>".cache/$s.lock"
     if flock -n 9; then WT="/tmp/$s"; break; fi
   done
